@@ -738,7 +738,20 @@ def run_case_tcp(case):
 
 
 def run_any(case):
-    return run_case_tcp(case) if case.get("driver") == "tcp" else run_case(case)
+    if case.get("driver") != "tcp":
+        return run_case(case)
+    res = run_case_tcp(case)
+    if res.get("error") and "no verdict within the budget" in res["error"]:
+        # real sockets on the real clock: on a heavily loaded machine a correct run can exceed its wall budget.
+        # A run that ran out of wall time is repeated once with three times the budget before it counts as hung
+        # (an implementation that really hangs, hangs again).
+        global REAL_BUDGET
+        saved, REAL_BUDGET = REAL_BUDGET, REAL_BUDGET * 3
+        try:
+            res = run_case_tcp(case)
+        finally:
+            REAL_BUDGET = saved
+    return res
 
 
 def smoke():
@@ -1332,7 +1345,7 @@ def session_stream(ctx, xcheck, scale, reps=1):
             c2["_plabel"] = case.get("_plabel", "other")
             c2["_tcp"] = True
             c2["driver"] = "tcp"
-            res = run_case_tcp({k: v for k, v in c2.items() if not k.startswith("_")})
+            res = run_any({k: v for k, v in c2.items() if not k.startswith("_")})
             ctx.traces_impl += 1
             res["seg_up"], res["seg_down"] = [], []
             cases.append(c2)
@@ -1930,7 +1943,7 @@ def real_stream(ctx, xcheck):
     t0 = time.time()
     results = []
     for case in cases:
-        res = run_case_tcp({k: v for k, v in case.items() if not k.startswith("_")})
+        res = run_any({"driver": "tcp", **{k: v for k, v in case.items() if not k.startswith("_")}})
         ctx.traces_impl += 1
         res["seg_up"], res["seg_down"] = [], []  # the kernel segments; the model is asked for "any segmentation"
         results.append(res)
